@@ -15,9 +15,10 @@ CONSTANTS
   LiveRounds = FALSE
   CachePutFails = TRUE
   CrashInCreate = TRUE
+  IssuerEntries = {"e1"}
   Stops = FALSE
 INVARIANTS LockAppendOnly PubAppendOnly PublishedWasLocked PubNotAheadOfLock AckPublished AckInLock SameAck
-  StagingDiscardSafe Recoverable LoadedIsServable PubBacked ImmutableStable LeafTimes LoserStops NoForkInLock LeafCount PoolBound StoppedIsQuiet
+  StagingDiscardSafe Recoverable LoadedIsServable PubBacked IssuersPresent ImmutableStable LeafTimes LoserStops NoForkInLock LeafCount PoolBound StoppedIsQuiet
 PROPERTIES LockStepExtends PubStepExtends PubStepWasLocked OutcomeIsFinal
 VIEW View
 CHECK_DEADLOCK FALSE
